@@ -96,6 +96,7 @@ func c06Exec(op string) string {
 			return "err " + oneLine(err.Error())
 		}
 		notes := []string{}
+		kept := string(b)
 		if !json.Valid(b) {
 			notes = append(notes, "Json() output is not valid JSON: "+clip(string(b), 200))
 		} else {
@@ -124,6 +125,9 @@ func c06Exec(op string) string {
 		}
 		if c2, cerr := mxj.Map(m).Copy(); cerr != nil || !deepEq(map[string]interface{}(c2), m) {
 			notes = append(notes, "Copy() differs from the original or fails")
+		}
+		if string(b) != kept {
+			notes = append(notes, "KEPT the bytes Json() returned changed during later encoder calls")
 		}
 		return "ok " + encStr(string(b)) + " | " + strings.Join(notes, "; ")
 	case "jquote":
